@@ -13,7 +13,7 @@ TECH = ("explicit TLA+ specification (spec/*.tla) model-checked by TLC to a fixp
 CLAIMED = {
     "C01": ("§4 C01", "Integrity (10 clauses) is an invariant of the exhaustive Hypergraph model (all mutators and "
             "in-place helpers, fixpoint) and is evaluated by TLC on the projected state of the real object after "
-            "every call, returning or raising, of TLC-enumerated inputs and of random histories under five label "
+            "every call, returning or raising, of TLC-enumerated inputs and of random histories under nine label "
             "families."),
     "C02": ("§4 C02", "DiIntegrity (12 clauses: tail<->out, head<->in, no dangling id, one attribute record each) is "
             "an invariant of the exhaustive DiHypergraph model and is evaluated by TLC on the projected state of the "
